@@ -286,6 +286,11 @@ constant domains.  Thus, e.g. ``STT_ARM_TFUNC`` and
 constant_dom const &
 elfsym_stt_dom (int machine)
 {
+  // The 64-bit and the v8+ flavors of SPARC share the STT_SPARC_* codes
+  // (STT_SPARC_REGISTER in fact comes from the V9 ABI).
+  if (machine == EM_SPARCV9 || machine == EM_SPARC32PLUS)
+    machine = EM_SPARC;
+
   switch (machine)
     {
 #define ELF_ONE_KNOWN_STT_ARCH(ARCH)		\
